@@ -87,7 +87,8 @@ def gen_transactions(r, n, with_24=True):
         kind = r.choice(["plain", "query+answer", "query+noframe", "query+timeout", "query+error", "query+interrupted", "twice", "twice-single",
                          "twice-different", "twice+backward", "twice+noframe", "edt+ext", "edt+ext-other", "edt+plain", "edt+gap+ext",
                          "dev-query", "dev-twice", "event", "event-di", "unknown16", "unknown24", "stray-backward",
-                         "twice-lookalike24", "edt+24bit+ext", "twice+error"])
+                         "twice-lookalike24", "edt+24bit+ext", "twice+error",
+                         "query>query+answer", "query>twice", "twice-single>query+answer", "query>query>query+answer"])
         if not with_24 and kind in ("dev-query", "dev-twice", "event", "event-di", "unknown24", "twice-lookalike24", "edt+24bit+ext"):
             kind = "plain"
         S, L = 0.05, 0.5
@@ -111,6 +112,20 @@ def gen_transactions(r, n, with_24=True):
             tx = [(g0, "F", 16, qf), (0.012, "E", 8, 0)]
         elif kind == "query+interrupted":
             tx = [(g0, "F", 16, qf), (0.03, "F", 16, pf)]
+        elif kind in ("query>query+answer", "query>twice", "twice-single>query+answer", "query>query>query+answer"):
+            # chains: a pending command is cut short by the next one, which then has its own full window - counted from its
+            # own frame, not from the first (gaps of 150 + 130 ms: inside each window, beyond the first one's)
+            q2 = r.choice([gg.QueryMaxLevel, gg.QueryMinLevel, gg.QueryPowerOnLevel])(a).frame.as_integer
+            q3 = gg.QueryFadeTimeFadeRate(a).frame.as_integer
+            ga, gb = r.choice([0.15, 0.12, 0.19]), r.choice([0.13, 0.1, 0.18])
+            if kind == "query>query+answer":
+                tx = [(g0, "F", 16, qf), (ga, "F", 16, q2), (gb, "B", 8, v)]
+            elif kind == "query>twice":
+                tx = [(g0, "F", 16, qf), (ga, "F", 16, tf), (gb, "F", 16, tf)]
+            elif kind == "twice-single>query+answer":
+                tx = [(g0, "F", 16, tf), (ga, "F", 16, qf), (gb, "B", 8, v)]
+            else:
+                tx = [(g0, "F", 16, qf), (ga, "F", 16, q2), (gb, "F", 16, q3), (r.choice([0.13, 0.17]), "B", 8, v)]
         elif kind == "twice":
             tx = [(g0, "F", 16, tf), (0.025, "F", 16, tf)] + ([(0.02, "N", 0, 0)] if r.random() < 0.3 else [])
         elif kind == "twice-single":
